@@ -442,6 +442,11 @@ func IsValidInputForTransform(t *v1.Transform, fromType v1.TransformIOType) erro
 			return errors.Errorf("unknown string transform type %s", t.String.Type)
 		}
 	case v1.TransformTypeConvert:
+		// The convert transform only accepts scalar inputs. Objects and arrays
+		// would be rejected with an invalid input type error at runtime.
+		if fromType == v1.TransformIOTypeObject || fromType == v1.TransformIOTypeArray {
+			return errors.Errorf("convert transform does not support %s input", fromType)
+		}
 		if _, err := composite.GetConversionFunc(t.Convert, fromType); err != nil {
 			return err
 		}
